@@ -166,7 +166,8 @@ class SymEval:
                  call_models: dict[str, Callable] | None = None,
                  atom_map: Callable[[ast.AST, 'Frame'], str | None] | None = None,
                  inline: bool = True, max_paths: int = 4096, watch_calls: bool = False,
-                 no_inline: set[str] | None = None, inline_only: set[str] | None = None, loop_mode: Any = 'once') -> None:
+                 no_inline: set[str] | None = None, inline_only: set[str] | None = None, loop_mode: Any = 'once',
+                 explore_handlers: bool = False) -> None:
         self.repo = repo
         self.bitnames = bitnames or default_bitnames(repo)
         self.call_models = call_models or {}
@@ -176,6 +177,7 @@ class SymEval:
         self.watch_calls = watch_calls
         self.no_inline = no_inline or set()
         self.inline_only = inline_only
+        self.explore_handlers = explore_handlers
         self.loop_mode = loop_mode  # 'once': run the body once from an arbitrary iteration; 'skip': only forget what it changes
         self.decisions: dict[str, bool] = {}
         self.used: list[str] = []
@@ -356,6 +358,18 @@ class Frame:
         elif isinstance(st, (ast.For, ast.While)):
             self.loop(st)
         elif isinstance(st, ast.Try):
+            if self.ev.explore_handlers and st.handlers:
+                k = self.ev.fresh.get('try', 0) + 1
+                self.ev.fresh['try'] = k
+                if self.ev.decide(f'raises(try#{k})'):
+                    # the protected block failed at its first operation: none of its effects, then the (first) handler
+                    h = st.handlers[0]
+                    if h.name:
+                        self.locals[h.name] = Opaque('exc')
+                    self.ev.events.append(('except', k, st, tuple(self.ev.ctx)))
+                    self.block(h.body)
+                    self.block(st.finalbody)
+                    return
             try:
                 self.block(st.body)
             except Raised as r:
@@ -878,6 +892,10 @@ class Frame:
             else:
                 r = self.ev.decide(f'{_tag(a)} in {b.ident}')
             return r if isinstance(op, ast.In) else not r
+        if isinstance(a, ExtRef):
+            a = Opaque(f'{a.module}.{a.name}')  # a value of the host environment: unknown here
+        if isinstance(b, ExtRef):
+            b = Opaque(f'{b.module}.{b.name}')
         sym = (Opaque, BV, Obj)
         if isinstance(op, (ast.Is, ast.IsNot)) and (b is None or a is None):
             other = a if b is None else b
@@ -1297,6 +1315,8 @@ def _tag(v: Any) -> str:
         return v.ident
     if isinstance(v, Closure):
         return f'def {v.fn.name}'
+    if isinstance(v, ExtRef):
+        return f'{v.module}.{v.name}'
     if isinstance(v, BoundBuiltin):
         return f'{_tag(v.obj)}.{v.attr}'
     if isinstance(v, frozenset):
